@@ -90,6 +90,10 @@ def events(rng, homs, thorough):
         N, D = h["qn"], h["den"]
         yield "Ad", f, D, (lambda T=T: b.adjoint(T)), "base.adjoint"
         yield "Ad", f, D, (lambda T=T: SE3(T).Ad()), "SE3.Ad"
+        # the adjoint of a TWIST object is the adjoint of the motion it generates (prismatic twists, i.e. pure
+        # translations, and half turns are among the lattice motions)
+        kind = "prismatic" if (f["q"][1:] == [0, 0, 0] and any(f["t"])) else "identity" if f["q"][1:] == [0, 0, 0] else "rotational"
+        yield "Ad", f, D, (lambda T=T: Twist3(SE3(T)).Ad()), "Twist3.Ad(%s)" % kind
         yield "jac", f, N, (lambda T=T: b.tr2jac(T)), "base.tr2jac"
         yield "jac", f, N, (lambda T=T: SE3(T).jacob()), "SE3.jacob"
         yield "jac_same", f, N * N * (D // N), (lambda T=T: b.tr2jac(T, samebody=True)), "base.tr2jac(samebody)"
